@@ -14,20 +14,24 @@ open HalmosVerif.Model HalmosVerif.Model.Sevm HalmosVerif.Spec
 section
 variable {s : Simp} {o : Oracle} {cfg : Cfg} {env : Env} {code : List Nat} {st : SState}
 
+/-- what an ending (or branching) state keeps of the state that was stepped -/
+def Keeps (a b : SState) : Prop :=
+  a.path = b.path ∧ a.subst = b.subst ∧ a.storage = b.storage ∧ a.transient = b.transient
+
 def Shape (s : Simp) (o : Oracle) (cfg : Cfg) (code : List Nat) (st : SState) (out : StepOut) : Prop :=
   (∃ st' ext, out = contOut st' ∧ st'.path = st.path ++ ext ∧ st'.visits = st.visits) ∨
-  (∃ e, out = { ends := [e] } ∧ e.st.path = st.path) ∨
-  (∃ st0 target c nextPc, out = jumpi s o cfg code st0 target c nextPc ∧ st0.path = st.path ∧ st0.visits = st.visits)
+  (∃ e, out = { ends := [e] } ∧ Keeps e.st st) ∨
+  (∃ st0 target c nextPc, out = jumpi s o cfg code st0 target c nextPc ∧ Keeps st0 st ∧ st0.visits = st.visits)
 
 theorem Shape.cont {st' : SState} {ext : List B} (h : st'.path = st.path ++ ext) (hv : st'.visits = st.visits) :
     Shape s o cfg code st (contOut st') := Or.inl ⟨st', ext, rfl, h, hv⟩
 theorem Shape.cont0 {st' : SState} (h : st'.path = st.path) (hv : st'.visits = st.visits) :
     Shape s o cfg code st (contOut st') := Or.inl ⟨st', [], rfl, by simp [h], hv⟩
-theorem Shape.halt {st0 : SState} {h : Evm.Halt} {tag : Tag} {data : List T} (hp : st0.path = st.path) :
+theorem Shape.halt {st0 : SState} {h : Evm.Halt} {tag : Tag} {data : List T} (hp : Keeps st0 st) :
     Shape s o cfg code st (haltOut st0 h tag data) := Or.inr (Or.inl ⟨_, rfl, hp⟩)
-theorem Shape.stuck {st0 : SState} {r : StuckReason} (hp : st0.path = st.path) :
+theorem Shape.stuck {st0 : SState} {r : StuckReason} (hp : Keeps st0 st) :
     Shape s o cfg code st (stuckOut st0 r) := Or.inr (Or.inl ⟨_, rfl, hp⟩)
-theorem Shape.jumpi {st0 : SState} {target : Nat} {c : B} {nextPc : Nat} (hp : st0.path = st.path)
+theorem Shape.jumpi {st0 : SState} {target : Nat} {c : B} {nextPc : Nat} (hp : Keeps st0 st)
     (hv : st0.visits = st.visits) :
     Shape s o cfg code st (jumpi s o cfg code st0 target c nextPc) :=
   Or.inr (Or.inr ⟨st0, target, c, nextPc, rfl, hp, hv⟩)
@@ -43,13 +47,13 @@ theorem Shape.copy {rest : List HV} {loc size : Nat} {g : Nat → T} :
   split
   · exact Shape.cont0 rfl rfl
   · split
-    · exact Shape.halt rfl
+    · exact Shape.halt ⟨rfl, rfl, rfl, rfl⟩
     · exact Shape.cont0 rfl rfl
 
 macro "shape_leaf" : tactic =>
   `(tactic| first
-    | exact Shape.cont0 rfl rfl | exact Shape.cont rfl rfl | exact Shape.halt rfl | exact Shape.stuck rfl
-    | exact Shape.jumpi rfl rfl | exact Shape.contAux rfl rfl | exact Shape.copy)
+    | exact Shape.cont0 rfl rfl | exact Shape.cont rfl rfl | exact Shape.halt ⟨rfl, rfl, rfl, rfl⟩ | exact Shape.stuck ⟨rfl, rfl, rfl, rfl⟩
+    | exact Shape.jumpi ⟨rfl, rfl, rfl, rfl⟩ rfl | exact Shape.contAux rfl rfl | exact Shape.copy)
 
 macro "shape_branch" : tactic => `(tactic| ((repeat' split) <;> shape_leaf))
 
@@ -150,12 +154,23 @@ theorem step_next_path {st' : SState} (h : st' ∈ (step s o cfg env code st).ne
   · rw [e] at h
     rcases jumpi_next h with ⟨⟨pc', vis', rfl, _⟩, _⟩ | ⟨vis', rfl⟩
     · obtain ⟨ext, he⟩ := addCond_path_ext s { st0 with pc := pc', visits := vis' } (s.b c)
-      exact ⟨ext, by rw [he, ← hp]⟩
+      exact ⟨ext, by rw [he, ← hp.1]⟩
     · obtain ⟨ext, he⟩ := addCond_path_ext s { st0 with pc := nextPc, visits := vis' } (s.b (.not (s.b c)))
-      exact ⟨ext, by rw [he, ← hp]⟩
+      exact ⟨ext, by rw [he, ← hp.1]⟩
 
 /-- an end state carries the path of the state that ended -/
 theorem step_end_path {e : EndState} (h : e ∈ (step s o cfg env code st).ends) : e.st.path = st.path := by
+  rcases step_shape (s := s) (o := o) (cfg := cfg) (env := env) (code := code) (st := st) with
+    ⟨st1, ext, e', hp, _⟩ | ⟨e0, e', hp⟩ | ⟨st0, target, c, nextPc, e', hp, _⟩
+  · rw [e'] at h; simp [contOut] at h
+  · rw [e'] at h
+    simp only [List.mem_singleton] at h
+    subst h; exact hp.1
+  · rw [e'] at h
+    rw [(jumpi_ends h).2]; exact hp.1
+
+/-- an end state carries the concretization map and the storage maps of the state that ended -/
+theorem step_end_keeps {e : EndState} (h : e ∈ (step s o cfg env code st).ends) : Keeps e.st st := by
   rcases step_shape (s := s) (o := o) (cfg := cfg) (env := env) (code := code) (st := st) with
     ⟨st1, ext, e', hp, _⟩ | ⟨e0, e', hp⟩ | ⟨st0, target, c, nextPc, e', hp, _⟩
   · rw [e'] at h; simp [contOut] at h
@@ -174,7 +189,7 @@ theorem step_bounded_cases :
     ⟨st1, ext, e', hp, _⟩ | ⟨e0, e', hp⟩ | ⟨st0, target, c, nextPc, e', hp, hv⟩
   · left; rw [e']; rfl
   · left; rw [e']
-  · right; exact ⟨st0, target, c, nextPc, hp, hv, e'⟩
+  · right; exact ⟨st0, target, c, nextPc, hp.1, hv, e'⟩
 
 theorem stepL_next_path {st' : SState} (h : st' ∈ (stepL s o cfg env code st).next) :
     ∃ ext, st'.path = st.path ++ ext := by
@@ -188,6 +203,12 @@ theorem stepL_end_path {e : EndState} (h : e ∈ (stepL s o cfg env code st).end
   split at h
   · simp only [haltOut, List.mem_singleton] at h; subst h; rfl
   · exact step_end_path h
+
+theorem stepL_end_keeps {e : EndState} (h : e ∈ (stepL s o cfg env code st).ends) : Keeps e.st st := by
+  unfold stepL at h
+  split at h
+  · simp only [haltOut, List.mem_singleton] at h; subst h; exact ⟨rfl, rfl, rfl, rfl⟩
+  · exact step_end_keeps h
 
 /-- a JUMPI whose condition is a literal (a concrete word, or a literal Bool) is decided without `jumpi` -/
 theorem step_jumpi_literal {tv cv : HV} {rest : List HV} {sz target : Nat} (hop : opAt code st.pc = 0x57)
